@@ -19,7 +19,7 @@ import (
 func StartSignReceiver(config *keygen.ConfigReceiver, selfID, otherID party.ID, hash []byte, pl *pool.Pool) protocol.StartFunc {
 	return func(sessionID []byte) (round.Session, error) {
 		info := round.Info{
-			ProtocolID:       "doerner/keygen",
+			ProtocolID:       "doerner/sign",
 			FinalRoundNumber: 2,
 			SelfID:           selfID,
 			PartyIDs:         party.NewIDSlice([]party.ID{selfID, otherID}),
@@ -45,7 +45,7 @@ func StartSignReceiver(config *keygen.ConfigReceiver, selfID, otherID party.ID, 
 func StartSignSender(config *keygen.ConfigSender, selfID, otherID party.ID, hash []byte, pl *pool.Pool) protocol.StartFunc {
 	return func(sessionID []byte) (round.Session, error) {
 		info := round.Info{
-			ProtocolID:       "doerner/keygen",
+			ProtocolID:       "doerner/sign",
 			FinalRoundNumber: 2,
 			SelfID:           selfID,
 			PartyIDs:         party.NewIDSlice([]party.ID{selfID, otherID}),
